@@ -64,7 +64,18 @@ impl<'a, 'ast> syn::visit::Visit<'ast> for Finder<'a> {
         syn::visit::visit_expr(self, e);
     }
 }
+fn has_break(b: &syn::Block) -> bool {
+    struct B(bool);
+    impl<'ast> syn::visit::Visit<'ast> for B {
+        fn visit_expr_break(&mut self, _b: &'ast syn::ExprBreak) { self.0 = true; }
+        fn visit_expr_closure(&mut self, _c: &'ast syn::ExprClosure) {}
+    }
+    let mut v = B(false);
+    syn::visit::Visit::visit_block(&mut v, b);
+    v.0
+}
 fn is_diverging_tail(e: &Expr) -> bool {
+    if let Expr::Loop(l) = e { return !has_break(&l.body); }
     match e { Expr::Return(_) | Expr::Break(_) | Expr::Continue(_) => true, Expr::Macro(m) => { let p = m.mac.path.to_token_stream().to_string(); p == "unreachable" || p == "panic" || p == "unimplemented" || p == "todo" } _ => false }
 }
 impl<'a> Marker<'a> {
@@ -287,12 +298,12 @@ impl<'a> Gen<'a> {
         if let Some((_, nn)) = rename { sig.ident = syn::Ident::new(nn, sig.ident.span()); path = format!("{}::{}", tyname.unwrap(), nn); }
         let spec = unit.fns.get(&path).cloned().unwrap_or_default();
         let mut fo = FnOut { path: path.clone(), src: src.to_string(), src_line, contract_only, from_unit: unit.name.clone(), hints: 0, hint_kinds: BTreeMap::new(), loops: 0, return_points: 0, probes: vec![], lowered_sites: 0 };
-        if unit.refcell_mut_fns.contains(&path) || unit.refcell_mut_unless.iter().any(|(feat, f)| f == &path && !self.features.contains(feat)) { if let Some(syn::FnArg::Receiver(r)) = sig.inputs.first_mut() { *r = parse_quote!(&mut self); } }
+        if !contract_only && (unit.refcell_mut_fns.contains(&path) || unit.refcell_mut_unless.iter().any(|(feat, f)| f == &path && !self.features.contains(feat))) { if let Some(syn::FnArg::Receiver(r)) = sig.inputs.first_mut() { *r = parse_quote!(&mut self); } }
         rules::sig_rules(sig, &mut self.rules);
         if contract_only {
             *block = parse_quote!({ unimplemented!() });
         } else {
-            rules::BodyRules { rules: &mut self.rules, unit, features: self.features, tyname: tyname.map(|s| s.to_string()) }.visit_block_mut(block);
+            rules::BodyRules { rules: &mut self.rules, unit, features: self.features, tyname: tyname.map(|s| s.to_string()), fnpath: path.clone() }.visit_block_mut(block);
             let vec_params: Vec<String> = sig.inputs.iter().filter_map(|a| match a { syn::FnArg::Typed(pt) => { let ty = pt.ty.to_token_stream().to_string(); if ty.starts_with("Vec <") { Some(pt.pat.to_token_stream().to_string()) } else { None } } _ => None }).collect();
             let mut l = lower::Lower::new(vec_params);
             l.visit_block_mut(block);
@@ -332,7 +343,7 @@ impl<'a> Gen<'a> {
                         (Item::Struct(s), Take::Item { kind, name }) if kind == "struct" && s.ident == name => {
                             rules::clean_attrs(&mut s.attrs, &mut self.rules);
                             for f in s.fields.iter_mut() { rules::clean_attrs(&mut f.attrs, &mut self.rules); f.vis = parse_quote!(pub); }
-                            rules::BodyRules { rules: &mut self.rules, unit, features: self.features, tyname: None }.visit_item_struct_mut(s);
+                            rules::BodyRules { rules: &mut self.rules, unit, features: self.features, tyname: None, fnpath: String::new() }.visit_item_struct_mut(s);
                             for (st, feat, fname, ty, _init) in &unit.ghost_fields {
                                 if s.ident == st && (feat == "-" || self.features.contains(feat)) {
                                     if let syn::Fields::Named(n) = &mut s.fields {
@@ -418,7 +429,12 @@ fn main() {
     let repo = &pos[0];
     let spec_path = std::path::Path::new(&pos[1]);
     let base = spec_path.parent().unwrap();
-    let unit = spec::parse_unit(&std::fs::read_to_string(spec_path).unwrap());
+    let mut unit = spec::parse_unit(&std::fs::read_to_string(spec_path).unwrap());
+    // conditional loop specs: drop the ones whose feature condition is false
+    for (_, fs) in unit.fns.iter_mut() {
+        let drop: Vec<usize> = fs.loops_cond.iter().filter(|(_, c)| { let (neg, f) = match c.strip_prefix('!') { Some(f) => (true, f.to_string()), None => (false, c.to_string()) }; features.contains(&f) == neg }).map(|(n, _)| *n).collect();
+        for n in drop { fs.loops.remove(&n); }
+    }
     let mut gen = Gen { repo, features: &features, probes, rules: rules::Rules::default(), items_ts: TokenStream::new(), all_hints: vec![], hint_base: 0, probe_n: 1, fns: vec![], specs: BTreeMap::new() };
     let mut pre: Vec<String> = vec![];
     let mut inside: Vec<String> = vec![];
@@ -448,6 +464,7 @@ fn main() {
     let mut out: Vec<String> = vec![];
     let mut i = 0;
     let mut loop_specs_used: BTreeMap<String, usize> = BTreeMap::new();
+    let mut shared_recv: BTreeMap<String, bool> = BTreeMap::new();
     while i < lines.len() {
         let l = lines[i].clone();
         let t = l.trim();
@@ -469,9 +486,12 @@ fn main() {
             out.push(format!("// @vx fn {} src={}:{} unit={} contract_only={}", path, fo.src, fo.src_line, fo.from_unit, fo.contract_only));
             if fo.contract_only { out.push("#[verifier::external_body]".to_string()); }
             if !spec.attrs.trim().is_empty() && !fo.contract_only { out.push(spec.attrs.trim_end().to_string()); }
+            let mut_self = header.contains("&mut self");
             out.push(header);
-            let req = spec::join_clauses(&spec.requires);
-            let ens = spec::join_clauses(&spec.ensures.iter().map(|c| c.text.clone()).collect::<Vec<_>>());
+            let fixr = |c: &String| -> String { if mut_self { c.clone() } else { c.replace("*old(self)", "*self").replace("old(self)", "self").replace("final(self)", "self") } };
+            let req = spec::join_clauses(&spec.requires.iter().map(fixr).collect::<Vec<_>>());
+            let ens = spec::join_clauses(&spec.ensures.iter().map(|c| fixr(&c.text)).collect::<Vec<_>>());
+            shared_recv.insert(path.clone(), !mut_self);
             for (kw, body) in [("requires", &req), ("ensures", &ens)] {
                 if !body.trim().is_empty() { out.push(format!("        {}", kw)); out.push(body.trim_end().to_string()); }
             }
@@ -509,8 +529,9 @@ fn main() {
             for (n, v) in &named { s = s.replace(n.as_str(), v); }
             for (k, a) in positional.iter().enumerate().rev() { s = s.replace(&format!("${}", k), a); }
             s = s.replace("$ret", "__ret");
-            let s = cfg_filter_text(&s, &features);
-            if !s.trim().is_empty() { out.push(format!("// @vx hint {} {}", h.kind, id)); out.push(s.trim_end().to_string()); }
+            let mut s = cfg_filter_text(&s, &features);
+            if *shared_recv.get(cur_fn.as_ref().unwrap_or(&String::new())).unwrap_or(&false) { s = s.replace("*old(self)", "*self").replace("old(self)", "self"); }
+            if !s.trim().is_empty() { out.push(format!("// @vx hint {} {}", h.kind, id)); out.push(s.trim_end().to_string()); out.push("// @vx endhint".to_string()); }
             if h.kind == "return" {
                 // at-return: every postcondition clause asserted at every return point (names the failing path)
                 if let Some(spec) = cur_fn.as_ref().and_then(|f| gen.specs.get(f)) {
@@ -519,11 +540,13 @@ fn main() {
                         out.push(format!("// @vx hint autopost {}", id));
                         out.push("proof {".to_string());
                         for c in &spec.ensures {
-                            let t = autopost_text(&c.text, &rname);
+                            let mut t = autopost_text(&c.text, &rname);
+                            if *shared_recv.get(cur_fn.as_ref().unwrap()).unwrap_or(&false) { t = t.replace("*old(self)", "*self").replace("old(self)", "self"); }
                             out.push(format!("// @props {}", c.props.join(" ")));
                             out.push(format!("assert({});", t));
                         }
                         out.push("}".to_string());
+                        out.push("// @vx endhint".to_string());
                     }
                 }
             }
